@@ -158,6 +158,7 @@ static void *defer_thread(void *arg)
 		if (op->skip)
 			continue;
 		usim_trace("op %d.%d %s", me, i, opname[op->kind]);
+		op_stall_begin(op);
 		switch (op->kind) {
 		case OP_DEFER:
 			do_defer(me, op->a, arg_pattern(op->b, op->c));
@@ -213,6 +214,7 @@ static void *defer_thread(void *arg)
 			}
 			break;
 		}
+		op_stall_end();
 	}
 	usim_quiet_vote();
 	if (wait_for_reclaimer[me]) {
@@ -270,6 +272,7 @@ void scen_defer(void)
 			op->c = 1 + rnd(usim_tier() ? 40 : 20);
 			if (op->kind == OP_READ) { op->a = 1 + rnd(3); op->b = rnd(4); }
 			if (op->kind == OP_REREG) op->b = rnd(3);
+			op_stall_gen(op, 5, 16);
 			usim_describe("%s\"%s", i ? "," : "", opname[op->kind]);
 			if (op->kind == OP_DEFER) usim_describe("(fn%d,%p)", op->a, arg_pattern(op->b, op->c));
 			if (op->kind == OP_BURST) usim_describe("(%d)", op->c);
